@@ -17,6 +17,7 @@ package memefish
 // @   ensures[C12] fails: result1 != nil ==> isNil(result0)
 // @   ensures[C12] consumed: result1 == nil ==> lex.pos == len(s) && lex.Token.Kind == "<eof>"
 // @   ensures[C12] nonempty: result1 == nil ==> len(result0) >= 1
+// @   ensures[C18] freshres: forall k: 0 <= k && k < len(result0) ==> fresh(result0[k])
 // @   ensures[C12] pieces: result1 == nil ==> (forall k: 0 <= k && k < len(result0) ==> result0[k] != nil && 0 <= result0[k].Pos && result0[k].Pos <= result0[k].End && result0[k].End <= len(s) && sameText(result0[k].Statement, s, result0[k].Pos, result0[k].End))
 // @   ensures[C12] order: result1 == nil ==> (forall k: 0 <= k && k < len(result0) - 1 ==> result0[k].End < result0[k + 1].Pos)
 // @   ensures[C12] cut: result1 == nil ==> (forall k: 0 <= k && k < len(result0) - 1 ==> s[result0[k].End] == ';')
